@@ -266,6 +266,61 @@ theorem unchanged_keeps_controller_partial_LoadRulesOfResource (K : Calc R S) (h
   rw [loadRulesOfResource_ctls]
   exact unchanged_keeps_controller_partial K hK now _ _ _ j r c hns hj hc
 
+/-! ## edits that only insert rules -/
+
+/-- the new list is the old rules (up to `isEqualsTo`) with genuinely new rules — equal to no old controller's rule —
+    inserted anywhere -/
+inductive Inserted (K : Calc R S) : List (Ctl R S) → List R → Prop where
+  | nil : Inserted K [] []
+  | keep (c : Ctl R S) (r : R) (cs : List (Ctl R S)) (rs : List R) :
+      K.eq c.rule r = true → Inserted K cs rs → Inserted K (c :: cs) (r :: rs)
+  | add (r : R) (cs : List (Ctl R S)) (rs : List R) :
+      (∀ c ∈ cs, K.eq c.rule r = false) → Inserted K cs rs → Inserted K cs (r :: rs)
+
+theorem Inserted.wanted {K : Calc R S} {cs : List (Ctl R S)} {rs : List R} (h : Inserted K cs rs) :
+    ∀ c ∈ cs, ∃ r ∈ rs, K.eq c.rule r = true := by
+  induction h with
+  | nil => simp
+  | keep c r cs rs hcr _ ih =>
+    intro d hd
+    rcases List.mem_cons.mp hd with rfl | hd
+    · exact ⟨r, List.mem_cons_self .., hcr⟩
+    · obtain ⟨r', hr', he⟩ := ih d hd
+      exact ⟨r', List.mem_cons_of_mem _ hr', he⟩
+  | add r cs rs _ _ ih =>
+    intro d hd
+    obtain ⟨r', hr', he⟩ := ih d hd
+    exact ⟨r', List.mem_cons_of_mem _ hr', he⟩
+
+/-- C14 for the edit "add rules" (to the same resource, anywhere in its list), under `noStealB`: all old controllers
+    survive, in their order; the inserted rules get new controllers in between. -/
+theorem inserted_rules_keep_controllers (K : Calc R S) (now : Nat) (new : List R) (old : List (Ctl R S)) (next : Nat)
+    (hi : Inserted K old new) (hns : noStealB K new old = true) :
+    old.Sublist (build K now new old next) := by
+  induction hi generalizing next with
+  | nil => simp [build]
+  | keep c r cs rs hcr _ ih =>
+    have := build_cons_eq K now r rs [] c cs next (by simp) hcr
+    simp only [List.nil_append] at this
+    rw [this]
+    simp only [noStealB, Bool.and_eq_true] at hns
+    exact List.Sublist.cons_cons c (ih next (noStealB_mono K rs _ _ (fun x hx => List.mem_cons_of_mem _ hx) hns.2))
+  | add r cs rs hnew hins ih =>
+    simp only [noStealB, Bool.and_eq_true, List.all_eq_true] at hns
+    obtain ⟨hhead, htail⟩ := hns
+    -- `r` cannot take a statistic: its donor would be wanted by a later rule
+    have hnosr : ∀ c ∈ cs, K.sr c.rule r = false := by
+      intro c hc
+      by_contra hne
+      have hsr : K.sr c.rule r = true := by simpa using hne
+      have hd := hhead c hc
+      simp only [hsr, hnew c hc, Bool.not_false, Bool.and_self, Bool.not_true, Bool.false_or, List.all_eq_true] at hd
+      obtain ⟨r', hr', he⟩ := hins.wanted c hc
+      have := hd r' hr'
+      simp only [he, Bool.not_true, Bool.false_and, Bool.false_eq_true] at this
+    rw [build_cons_fresh K now r rs cs next hnew hnosr]
+    exact List.Sublist.cons _ (ih (next+1) htail)
+
 /-! ## decisions_invariant_under_reload -/
 
 /-- a load whose list is, rule by rule, `isEqualsTo` the rules the old controllers are bound to returns exactly the old
